@@ -262,6 +262,14 @@ def commit (c : Cfg) (s : Engine) (t : Txn) : Engine × Bool :=
               runs := if run.isEmpty then s.runs else run :: s.runs,
               nextTxid := s.nextTxid + 1 }, true)
 
+/-- WriteTxn::commit whose `wal.append` number `j` (0 = the BeginTx) fails — record larger than 1 MiB,
+    value nested deeper than 128, I/O error: the `j` records appended before it stay in the log (BeginTx
+    and graph records, never the CommitTx), `commit` returns the error, nothing else happened; the txid
+    stays consumed.  (A failed fsync takes the whole transaction out of the log again: `j = 0`.) -/
+def commitFail (c : Cfg) (s : Engine) (t : Txn) (j : Nat) : Engine :=
+  { s with wal := s.wal ++ (WalRec.beginTx t.txid ::
+      c.commitOrder.flatMap (t.recordsOf (t.mt.freeze t.txid))).take j }
+
 /-- dropping a WriteTxn: nothing of the transaction state survives (the txid stays consumed) -/
 def abort (s : Engine) (_ : Txn) : Engine := s
 
@@ -320,17 +328,27 @@ inductive OpenErr
   | segment              -- manifest names a segment that is not in the file
 deriving DecidableEq, Repr
 
-/-- Wal::replay_committed: group the records of committed transactions, drop uncommitted ones -/
-def replayCommitted : List WalRec → Option Nat → List WalRec → Except OpenErr (List (Nat × List WalRec))
+/-- Wal::replay_committed: group the records of committed transactions, drop uncommitted ones.
+    `reset` = the grouping loop clears its buffer at every BeginTx, so the records of a transaction that
+    never reached its CommitTx (failed commit, crash) are dropped when the next transaction begins;
+    without it they are handed to the next transaction that commits.  At CommitTx the buffer is taken
+    (`mem::take`), so it is empty afterwards either way. -/
+def replayCommittedWith (reset : Bool) :
+    List WalRec → Option Nat → List WalRec → Except OpenErr (List (Nat × List WalRec))
   | [], _, _ => .ok []
-  | .beginTx t :: rest, _, _ => replayCommitted rest (some t) []
+  | .beginTx t :: rest, _, pending => replayCommittedWith reset rest (some t) (if reset then [] else pending)
   | .commitTx t :: rest, cur, pending =>
     if cur != some t then .error .walProtocol
     else do
-      let more ← replayCommitted rest none []
+      let more ← replayCommittedWith reset rest none []
       pure ((t, pending) :: more)
   | r :: rest, cur, pending =>
-    if cur.isNone then .error .walProtocol else replayCommitted rest cur (pending ++ [r])
+    if cur.isNone then .error .walProtocol else replayCommittedWith reset rest cur (pending ++ [r])
+
+/-- Wal::replay_committed as the current source does it (regenerated table) -/
+def replayCommitted (w : List WalRec) (cur : Option Nat) (pending : List WalRec) :
+    Except OpenErr (List (Nat × List WalRec)) :=
+  replayCommittedWith Generated.replayResetsPendingAtBegin w cur pending
 
 structure Recovery where
   epoch : Nat := 0
@@ -426,21 +444,47 @@ def Engine.open (d : Disk) : Except OpenErr Engine := do
 /-! ### read API (api.rs StorageSnapshot over snapshot.rs Snapshot) -/
 namespace Engine
 
-/-- NeighborsIter: run phase then segment phase (`none` = a slice index panicked) -/
-def neighbors (s : Engine) (src : Nat) (rel : Option Nat) : Option (List Edge) :=
+/-- NeighborsIter: run phase, then — after the pending tombstones of the LAST run were folded into the
+    blocked sets (`apply_pending_tombstones` between the phases) — the segment phase
+    (`none` = a slice index panicked) -/
+def neighborsFlushed (s : Engine) (src : Nat) (rel : Option Nat) : Option (List Edge) :=
   match outRuns src rel s.runs [] [] with
   | (es, none) => some es
   | (es, some (bn, be)) =>
     (s.segs.mapM (fun (g : Seg) => (g.neighbors src rel).map (·.filter (fun e => !blockedOut bn be e)))).map
       (fun ls => es ++ ls.flatten)
 
+/-- NeighborsIter WITHOUT that fold (the tombstones of a run are only folded when an older run is
+    loaded): the segment phase sees the blocked sets of all runs but the oldest, and a start node that
+    only the oldest run tombstones does not terminate the iterator -/
+def neighborsUnflushed (s : Engine) (src : Nat) (rel : Option Nat) : Option (List Edge) :=
+  match (outRuns src rel s.runs.dropLast [] []).2 with
+  | none => some (outRuns src rel s.runs [] []).1
+  | some (bn, be) =>
+    (s.segs.mapM (fun (g : Seg) => (g.neighbors src rel).map (·.filter (fun e => !blockedOut bn be e)))).map
+      (fun ls => (outRuns src rel s.runs [] []).1 ++ ls.flatten)
+
+/-- NeighborsIter as the current source does it (regenerated table) -/
+def neighbors (s : Engine) (src : Nat) (rel : Option Nat) : Option (List Edge) :=
+  if Generated.itersFlushBeforeSegments then s.neighborsFlushed src rel else s.neighborsUnflushed src rel
+
 /-- IncomingNeighborsIter -/
-def incoming (c : Cfg) (s : Engine) (dst : Nat) (rel : Option Nat) : Option (List Edge) :=
+def incomingFlushed (c : Cfg) (s : Engine) (dst : Nat) (rel : Option Nat) : Option (List Edge) :=
   match inRuns dst rel s.runs [] [] with
   | (es, none) => some es
   | (es, some (bn, be)) =>
     (s.segs.mapM (fun (g : Seg) => (g.incomingG c.csrGuard dst rel).map (·.filter (fun e => !blockedIn bn be e)))).map
       (fun ls => es ++ ls.flatten)
+
+def incomingUnflushed (c : Cfg) (s : Engine) (dst : Nat) (rel : Option Nat) : Option (List Edge) :=
+  match (inRuns dst rel s.runs.dropLast [] []).2 with
+  | none => some (inRuns dst rel s.runs [] []).1
+  | some (bn, be) =>
+    (s.segs.mapM (fun (g : Seg) => (g.incomingG c.csrGuard dst rel).map (·.filter (fun e => !blockedIn bn be e)))).map
+      (fun ls => (inRuns dst rel s.runs [] []).1 ++ ls.flatten)
+
+def incoming (c : Cfg) (s : Engine) (dst : Nat) (rel : Option Nat) : Option (List Edge) :=
+  if Generated.itersFlushBeforeSegments then s.incomingFlushed c dst rel else s.incomingUnflushed c dst rel
 
 /-- api.rs StorageSnapshot::nodes (dense ids of the node table minus run tombstones) -/
 def nodes (s : Engine) : List Nat := liveNodeIds s.idmap.i2e.length s.runs
